@@ -351,6 +351,17 @@ fn lexi_range(ld: &str, rd: &str, ld_incl: bool, rd_incl: bool) -> Result<String
     }
 }
 
+/// Verification hook: the private fraction-digit helpers, selected by `kind`
+/// (0 = lexi_x_to_9, 1 = lexi_0_to_x, 2 = lexi_range).
+#[cfg(feature = "llg_verif")]
+pub fn verif_lexi(kind: u8, a: &str, b: &str, a_incl: bool, b_incl: bool) -> Result<String> {
+    match kind {
+        0 => lexi_x_to_9(a, a_incl),
+        1 => lexi_0_to_x(a, a_incl),
+        _ => lexi_range(a, b, a_incl, b_incl),
+    }
+}
+
 fn float_to_str(f: f64) -> String {
     format!("{f}")
 }
